@@ -9,6 +9,7 @@ package c17
 
 import (
 	"context"
+	"encoding/json"
 	"fmt"
 	"io"
 	"log"
@@ -313,7 +314,7 @@ func perf(b string, id int, tb string, confs int64) c17Log {
 func stale(b string, id int, tb string, confs int64) c17Log {
 	return c17Log{Stale: true, Key: c17Key{Blk: b, ID: id}, TB: tb, Confs: confs}
 }
-func poll(logs ...c17Log) c17Step { return c17Step{Kind: "poll", Logs: logs} }
+func poll(logs ...c17Log) c17Step   { return c17Step{Kind: "poll", Logs: logs} }
 func sleep(d time.Duration) c17Step { return c17Step{Kind: "sleep", Dur: int64(d)} }
 
 // defaultQueries: for every id of the history the interesting blocks around every check block and
@@ -645,7 +646,24 @@ func TestC17(t *testing.T) {
 	dir := OutDir(t, "C17")
 	var cases []c17Case
 	if rf := ReplayFile(); rf != "" {
-		cases = LoadReplayCases[c17Case](t, rf)
+		// a replay file holds cases of one of the two parts (see c17_plugin_test.go)
+		for _, raw := range LoadReplayCases[json.RawMessage](t, rf) {
+			var probe struct {
+				Part string `json:"part"`
+			}
+			_ = json.Unmarshal(raw, &probe)
+			if probe.Part == "plugin" {
+				continue
+			}
+			var c c17Case
+			if err := json.Unmarshal(raw, &c); err != nil {
+				t.Fatal(err)
+			}
+			cases = append(cases, c)
+		}
+		if len(cases) == 0 {
+			return // the replay file belongs to TestC17Plugin
+		}
 	} else {
 		cases = append(cases, LoadCorpus[c17Case](t, "C17")...)
 		// h.NewRng's streams for seeds k and k+1 are the same sequence shifted by one draw; re-seed
